@@ -609,7 +609,20 @@ var errProcFailed = errors.New("the program exited with status 2")
 
 // execute runs a command: in this process (Execute), or, with proc=1, as the program itself (exit status 0 =
 // success, 1 = difference found, 2 = any error).
-func (s *sess) execute(a kv, c cmd.Command, then func()) (error, bool) {
+func (s *sess) execute(a kv, c cmd.Command, then func()) (err error, panicked bool) {
+	if a["ro"] != "" {
+		// ro=REL,..: the command runs as a user who may read but not write these files
+		b := kv{}
+		for k, v := range a {
+			if k != "ro" {
+				b[k] = v
+			}
+		}
+		if !s.asNobody(s.roFiles(a), func() { err, panicked = s.execute(b, c, then) }) {
+			must(fmt.Errorf("ro=: the effective uid cannot be dropped"))
+		}
+		return err, panicked
+	}
 	if a.num("proc", 0) != 1 {
 		return runCmdThen(c.Execute, then)
 	}
@@ -617,7 +630,7 @@ func (s *sess) execute(a kv, c cmd.Command, then func()) (error, bool) {
 	pc := exec.Command(bin, procArgs(c)...)
 	var stderr bytes.Buffer
 	pc.Stdout, pc.Stderr = io.Discard, &stderr
-	err := pc.Run()
+	err = pc.Run()
 	if then != nil {
 		then()
 	}
